@@ -204,6 +204,7 @@ class Net:
         self.never_withdrawn: list[str] = []
         self.opened_while_paused: list[dict] = []
         self.cleans_checked = 0
+        self.enc_cases: list[tuple] = []
         self.after_exit_checked = 0
 
     # ---- labels
@@ -243,6 +244,20 @@ class Net:
     def check(self) -> None:
         st = self.astatus()
         self.label(f'LCheck {c_astatus(st)}', ['check', st])
+        self.enc_case()
+
+    def enc_case(self) -> None:
+        """The real .status object next to its abstract form: ties PeerNet.enc_status to the object's JSON."""
+        status = self.body.get('status', {})
+        if len(self.enc_cases) >= 4 or not status:
+            return
+        if not all({'priority', 'lifetime'} <= set(v) <= {'priority', 'lifetime', 'lastseen'} for v in status.values()):
+            return
+        st = self.astatus()
+        tab = [(r[2], status[k]['lastseen']) for k, r in st if r[2] is not None]
+        case = (st, tab, copy.deepcopy(status))
+        if case not in self.enc_cases:
+            self.enc_cases.append(case)
 
 
 def astatus_of(status: dict) -> list[tuple[str, tuple[int, int, int | None]]]:
@@ -321,7 +336,7 @@ def installed(net: Net) -> Iterator[None]:
             elif op.state == 'exiting':
                 net.odd.append(['touch-while-exiting', op.id, p])
             else:
-                net.label(f'LKeepalive {cq.cstr(op.id)}', ['keepalive', op.id])
+                net.label(f"LKeepalive {cq.cstr(op.id)} {cq.cZ(net.scenario['jitter'])}", ['keepalive', op.id, net.scenario['jitter']])
             net.write(op.id, copy.deepcopy(p))
         else:
             net.odd.append(['odd-patch', op.id, site, p])
@@ -715,6 +730,8 @@ def run_scenario(ctx: fw.Ctx, sc: dict) -> Net:
             t = min(end, t + 2.437)   # never a label instant (labels are at multiples of 125 ms): only monitors run here
             run_to(t)
             monitor_instant(ctx, net, 'tail')
+            if quiescent(net):
+                net.enc_case()
         net.check()
         monitor_final(ctx, net)
         for op in list(net.ops.values()):
@@ -751,6 +768,7 @@ def monitor_final(ctx: fw.Ctx, net: Net) -> None:
 
 def run_networks(ctx: fw.Ctx, header: str, n: int) -> None:
     cases: list[fw.Case] = []
+    enc: list[fw.Case] = []
     scenarios = [c for c in load_corpus('net')]
     r = ctx.rng
     while len(scenarios) < n:
@@ -760,6 +778,12 @@ def run_networks(ctx: fw.Ctx, header: str, n: int) -> None:
         overl = overlapping(sc)
         ctx.count('net_operators_overlapping', str(overl))
         ctx.count('net_delivery', 'slower-than-margin' if sc.get('slow') else 'fast')
+        ctx.count('net_keepalive_jitter', str(sc['jitter']))
+        for spec in sc['ops'].values():
+            ctx.count('net_keepalive_lifetime', str(spec['life']))
+        ctx.count('net_keepalive_labels', 'LKeepalive', sum(1 for l in net.trace if l[0] == 'keepalive'))
+        ctx.count('net_keepalive_labels', 'LWake', sum(1 for l in net.trace if l[0] == 'wake'))
+        ctx.count('net_keepalive_labels', 'LExit/LGone', sum(1 for l in net.trace if l[0] in ('exit', 'gone')))
         if net.odd:
             ctx.correspondence_break('T:peernet', {'scenario': sc, 'unexpected': net.odd[:5]})
             continue
@@ -769,8 +793,15 @@ def run_networks(ctx: fw.Ctx, header: str, n: int) -> None:
         cases.append(fw.Case(term, {'scenario': sc, 'trace': net.trace},
                              diag=f'rejected_at (net0 {cq.cZ(net.t0)}) {cq.clist(net.labels)} 0'))
         ctx.cov['traces_validated_against_impl'] += 1
+        for st, tab, status in net.enc_cases:
+            ftab = cq.clist(cq.cpair(cq.cZ(t), cq.cstr(x)) for t, x in tab)
+            enc.append(fw.Case(f'jeqb (enc_status (fmt_tab {ftab}) {c_astatus(st)}) {cq.cjson(status)}',
+                               {'status': status, 'abstract': st}, diag=f'enc_status (fmt_tab {ftab}) {c_astatus(st)}'))
+            ctx.count('encoding_records', str(len(st)))
+            ctx.count('encoding_lastseen', 'all' if len(tab) == len(st) else 'some-missing')
         ctx.count('net_trace_labels', '<=50' if len(net.trace) <= 50 else '<=200' if len(net.trace) <= 200 else '>200')
     ctx.differential('peernet', header, cases, shard=12)
+    ctx.differential('encoding', header, enc, shard=150)
 
 
 def overlapping(sc: dict) -> int:
